@@ -539,6 +539,17 @@ def g_DiagonalReplicated(rng):
                         if oa is None and (ia if ia >= 0 else ind + 1 + ia) > outd:
                             continue  # output replication axis would not exist
                         out.append({"op": [name, cfg], "replicates": rep, "input_axis": ia, "output_axis": oa})
+    # negative output_axis with operators whose output rank differs from the input rank
+    rankch = [
+        ("Reshape", {"shape": [3, 4], "newshape": [2, 3, 2], "dtype": "float64"}, 3),
+        ("Reshape", {"shape": [2, 3, 2], "newshape": [6, 2], "dtype": "float64"}, 2),
+        ("Sum", {"shape": [2, 3], "axis": 0, "keepdims": False, "dtype": "float64"}, 1),
+        ("Sum", {"shape": [2, 3, 2], "axis": [0, 2], "keepdims": False, "dtype": "float64"}, 1),
+    ]
+    for k, (name, cfg, outd) in enumerate(rankch):
+        for oa in range(-(outd + 1), 0):
+            for ia in (0, -1):
+                out.append({"op": [name, cfg], "replicates": 2, "input_axis": ia, "output_axis": oa, "must": (k in (0, 2) and oa == -1 and ia == 0)})
     return out
 
 
@@ -667,6 +678,18 @@ def g_XRayTransform3D(rng):
         for seq, angles in [("X", [[0.0]]), ("Z", [[math.pi / 2]])]:
             out.append({"shape": shape, "det_shape": det, "seq": seq, "angles": angles, "voxel_spacing": [0.5, 0.5, 0.5], "det_spacing": None})
     out[-8]["must"] = True
+    # HAND-WRITTEN projection matrices following the documented convention (voxel (i,j,k) has its centre projected to
+    # M (i+1/2, j+1/2, k+1/2) + t; detector pixel (a,b) covers [a,a+1) x [b,b+1)) -- not built by matrices_from_euler_angles
+    hand = [
+        ([2, 3, 2], [2, 3], [[[1, 0, 0, 0], [0, 1, 0, 0]]]),            # identity view: x.sum(axis=2)
+        ([2, 3, 4], [3, 4], [[[0, 1, 0, 0], [0, 0, 1, 0]]]),            # axis permutation: x.sum(axis=0)
+        ([3, 2, 2], [2, 3], [[[0, 0, 1, 0], [1, 0, 0, 0]]]),            # (k, i): x.sum(axis=1) transposed
+        ([1, 1, 1], [2, 2], [[[1, 0, 0, 0.75], [0, 1, 0, 0.1]]]),       # documented offsets, small detector
+        ([2, 2, 2], [3, 3], [[[0.5, 0, 0, 1.0], [0, 0.5, 0, 1.0]], [[1, 0, 0, 0.5], [0, 0, 1, 0.25]]]),
+        ([12, 2, 1], [12, 2], [[[1, 0, 0, 0], [0, 1, 0, 0]]]),          # more than one slab
+    ]
+    for k, (shape, det, mats) in enumerate(hand):
+        out.append({"shape": shape, "det_shape": det, "matrices": mats, "must": k in (0, 1, 3)})
     return out
 
 
@@ -913,6 +936,8 @@ def build(name, c):
     if name == "XRayTransform3D":
         from scico.linop.xray import XRayTransform3D
 
+        if "matrices" in c:
+            return XRayTransform3D(tuple(c["shape"]), jnp.asarray(np.asarray(c["matrices"], dtype=np.float64)), tuple(c["det_shape"]))
         M = XRayTransform3D.matrices_from_euler_angles(
             tuple(c["shape"]), tuple(c["det_shape"]), c["seq"], np.asarray(c["angles"], dtype=np.float64),
             voxel_spacing=None if c["voxel_spacing"] is None else np.asarray(c["voxel_spacing"]),
